@@ -12,6 +12,8 @@ Arg(e, a, d)       == IF a \in DOMAIN e.args THEN e.args[a] ELSE d
 Resp(e, a, d)      == IF a \in DOMAIN e.resp THEN e.resp[a] ELSE d
 DBal(s, t, a, d)   == Bal(t, a, d) -- Bal(s, a, d)
 DSupply(s, t, d)   == Supply(t, d) -- Supply(s, d)
+\* accounts driven by private keys (users, bots, feeders); every other account is protocol-owned
+UserAccts(s) == {s.users[i] : i \in DOMAIN s.users}
 \* a governance-authority message applied between blocks through the real MsgServiceRouter
 AdminOK(k, e, name) == k = "Admin" /\ e.name = name /\ e.ok
 =============================================================================
